@@ -367,7 +367,7 @@ class TocTreeprocessor(Treeprocessor):
         used_ids = set()
         for el in doc.iter():
             if "id" in el.attrib:
-                used_ids.add(el.attrib["id"])
+                used_ids.add(unescape(el.attrib["id"]))
 
         toc_tokens = []
         for el in doc.iter():
